@@ -189,7 +189,27 @@ def condition_chain_laws(sx, kind, n, wsel, ksel):
         kmenu = [
             [[1, 0, 0], [F(1, 2), F(1, 2), 0], [0, F(1, 4), F(3, 4)], [F(1, 3), F(1, 3), F(1, 3)]],
             [[0, 0, 1], [0, 0, 1], [F(1, 10), F(9, 10), 0], [0, 1, 0]],
-        ][ksel]
+        ][min(ksel, 1)]
+        if ksel == 2:
+            # kernels of different shapes: one-point distributions of mass 1, of mass 0 (a zero-probability entry), a
+            # sub-stochastic one-point row, a deterministic distribution object, a two-point row
+            from msdm.core.distributions import DeterministicDistribution
+            krows = [{0: 1}, 'det1', {2: 0}, {0: F(1, 2)}]
+            K = [[sx.const(0)] * 3 for _ in range(n)]
+            objs = []
+            for i in range(n):
+                if krows[i] == 'det1':
+                    K[i][1] = sx.const(1)
+                    objs.append(DeterministicDistribution(ys[1]))
+                else:
+                    for k_, v in krows[i].items():
+                        K[i][k_] = sx.const(v)
+                    objs.append(DictDistribution({ys[k_]: sx.const(v) for k_, v in krows[i].items()}))
+            ch = d.chain(lambda e: objs[evs.index(e)])
+            for k, y in enumerate(ys):
+                sx.prove_eq(ch.prob(y), ssum(pr[e] * K[i][k] for i, e in enumerate(evs)), f'chain-mixed-kernel-shapes[{k}]')
+            sx.prove_eq(ssum(p for _, p in ch.items()), ssum(pr[e] * ssum(K[i]) for i, e in enumerate(evs)), 'chain-mixed-kernel-shapes-mass')
+            return
         K = [[sx.const(v) for v in kmenu[i]] for i in range(n)]
         ch = d.chain(lambda e: DictDistribution({y: K[evs.index(e)][k] for k, y in enumerate(ys)}))
         for k, y in enumerate(ys):
@@ -274,6 +294,33 @@ def sampling_laws(sx, kind, n):
             sx.prove(len(xs) == 2 and all(pr[v] > 0 for v in xs), 'sample-k2-positive')
 
 
+def sampling_after_update(sx, n):
+    """a DictDistribution is a dict: after its entries are re-weighted in place (same keys / a key replaced), sampling follows the
+    CURRENT weights - positive-probability events only, the sole event of what is now a one-point distribution"""
+    from msdm.core.distributions import DictDistribution
+    with facade(sx):
+        evs = [EVENTS[i] for i in range(n)]
+        ps = simplex(sx, [f"dp{i}" for i in range(n)])
+        qs = simplex(sx, [f"dq{i}" for i in range(n)])
+        d = DictDistribution(dict(zip(evs, ps)))
+        rng = NondetStream(3)
+        x = d.sample(rng=rng)
+        sx.prove(ps[evs.index(x)] > 0, 'sample-positive-probability')
+        for e, q in zip(evs, qs):
+            d[e] = q
+        y = d.sample(rng=NondetStream(5))
+        sx.prove(qs[evs.index(y)] > 0, 'sample-after-in-place-update-positive-under-current-weights')
+        # replace one key by another (same number of entries), all mass on the new key
+        new = EVENTS[n]
+        del d[evs[0]]
+        for e in evs[1:]:
+            d[e] = 0
+        d[new] = 1
+        z = d.sample(rng=NondetStream(7))
+        sx.prove(z == new, 'sample-after-key-replacement-returns-the-only-positive-event')
+        sx.prove(not stubs.TAINT.reads and not stubs.TAINT.writes, 'global-generator-untouched')
+
+
 def seeded_sampling(sx, kind, n, k):
     """repeated sampling from two equally seeded generators gives identical sequences (generators: deterministic-uninterpreted,
     the j-th draw of a stream is U(seed, j); the seed is a symbolic integer)"""
@@ -310,11 +357,13 @@ def jobs(tier):
                 for fsel in ([0] if tier == 'quick' else [0, 1, 2]):
                     yield ('unary_laws', dict(kind=kind, n=n, proj=proj, fsel=fsel), o)
             for wsel in range(4):
-                for ksel in range(2):
+                for ksel in range(3 if wsel == 0 else 2):
                     yield ('condition_chain_laws', dict(kind=kind, n=n, wsel=wsel, ksel=ksel), o)
             yield ('sampling_laws', dict(kind=kind, n=n), o)
             if n >= 2 or kind == 'det':
                 yield ('seeded_sampling', dict(kind=kind, n=n, k=2 if tier == 'quick' else 3), o)
+    for n in range(1, N + 1):
+        yield ('sampling_after_update', dict(n=n), o)
     for k1 in ['dict', 'dictun', 'uniform', 'det', 'table']:
         for k2 in ['menu', 'uniform', 'det'] + (['dict'] if k1 in ('uniform', 'det') else []):
             for n1 in range(1, N + 1):
